@@ -35,6 +35,7 @@ pub fn batches(prop: &str, tier: &str) -> Vec<Batch> {
             Batch { label: "dict-sequential", engine: "lsp-sim", params: json!({"mode":"sequential","focus":"dict"}), runs: if q { 300 } else { 10_000 } },
             Batch { label: "dict-concurrent", engine: "lsp-sim", params: json!({"mode":"dict"}), runs: if q { 600 } else { 20_000 } },
             Batch { label: "crash-random", engine: "lsp-sim", params: json!({"mode":"crash"}), runs: if q { 400 } else { 30_000 } },
+            Batch { label: "disk-errors", engine: "lsp-sim", params: json!({"mode":"sequential","focus":"dict","disk_errors":true}), runs: if q { 300 } else { 15_000 } },
             Batch { label: "js-import-words", engine: "api-sim", params: json!({"target":"wasm"}), runs: if q { 300 } else { 20_000 } },
             Batch { label: "crash-enum-base", engine: "lsp-sim", params: json!({"mode":"sequential","focus":"dict","enumerate_crash_points":true}), runs: if q { 60 } else { 1_500 } },
         ],
@@ -113,13 +114,14 @@ pub fn def(prop: &str) -> Option<PropDef> {
         "C07" => PropDef {
             id: "C07",
             level: "fault_enumeration",
-            rule: "One evaluation = one simulated editor session against the real harper-ls (as for C09) whose workload is dominated by HarperAddToUserDict / HarperAddToFileDict commands (server-offered words and generated Unicode words, one add in flight at a time), edits, opens of other files, orderly restarts and, in the crash batches, process death at a scheduler-chosen event boundary with the in-flight write applied torn (0, 1, half, all-but-one, all bytes or a random prefix). Oracles: at every quiescent point the last diagnostics of every open document equal the reference computed with the client model's word sets (added words accepted, everything else unchanged, file words only in their file); every dictionary file reloads to exactly the acknowledged words (in-flight words optional); after a crash acked ⊆ file ⊆ acked ∪ in-flight. Non-trivial: the run acknowledged at least one add and checked a non-empty dictionary file, or crashed with a dictionary operation pending. Distinct: by decision-kind sequence hash (sequential runs: plus script).",
+            rule: "One evaluation = one simulated editor session against the real harper-ls (as for C09) whose workload is dominated by HarperAddToUserDict / HarperAddToFileDict commands (server-offered words and generated Unicode words, one add in flight at a time), edits, opens of other files, orderly restarts and, in the crash batches, process death at a scheduler-chosen event boundary with the in-flight write applied torn (0, 1, half, all-but-one, all bytes or a random prefix). Oracles: at every quiescent point the last diagnostics of every open document equal the reference computed with the client model's word sets (added words accepted, everything else unchanged, file words only in their file); every dictionary file reloads to exactly the acknowledged words (in-flight words optional); after a crash acked ⊆ file ⊆ acked ∪ in-flight. In the disk-error batch (sequential sessions) every file operation of an add-word command (open, read, mkdir, create, write, flush, rename) may instead fail with EIO/ENOSPC/EMFILE/EACCES: the word of that command becomes optional, every word acknowledged before must survive, and the diagnostics of the open documents are not judged until their next update. Non-trivial: the run acknowledged at least one add and checked a non-empty dictionary file, or crashed with a dictionary operation pending. Distinct: by decision-kind sequence hash (sequential runs: plus script).",
             assumptions: vec![
                 "durability model is process death: completed system calls persist (no power loss, no reordering of completed writes)",
+                "disk errors are injected only while an add-word command is the only request being served (that is where the property's durability clause applies); reads of documents and writes of statistics are not failed",
                 "words are non-empty strings without whitespace or control characters; one add command is in flight at a time (other traffic may overlap)",
                 "as for C09: main.rs is outside the simulation; handlers suspend only at seams the simulator owns",
             ],
-            must_reach: vec!["dict_files_checked_nonempty", "last_word_checked_nonempty", "crash", "crash_with_pending_write", "crash_with_pending_create", "torn_write_partial", "restart_orderly", "gate_write", "gate_create"],
+            must_reach: vec!["dict_files_checked_nonempty", "last_word_checked_nonempty", "crash", "crash_with_pending_write", "crash_with_pending_create", "torn_write_partial", "restart_orderly", "gate_write", "gate_create", "fs_error_injected", "add_with_fs_error", "fs_error_on_open", "fs_error_on_read", "fs_error_on_create", "fs_error_on_write", "fs_error_on_rename"],
             real: vec!["harper-ls (all modules but main.rs), incl. dictionary_io.rs save_dict/load_dict", "tower-lsp 0.20", "tokio::sync, tokio::io::{BufReader,BufWriter}", "harper-core dictionaries (MutableDictionary, MergedDictionary, FstDictionary)", "the file system (tmpfs)"],
             stub: vec!["harper-ls main.rs", "tokio runtime", "tokio::fs (gate, then real std::fs op; at a crash a pending write lands as a seeded prefix)", "the editor (client model)", "libc clock/random"],
             watchdog_secs: 180,
